@@ -8,12 +8,13 @@ let z_of_int (i : int) : z = if i = 0 then Z0 else if i > 0 then Zpos (pos_of_in
 let rec pow2 (k : int) : positive = if k = 0 then XH else XO (pow2 (k - 1))
 
 (* exact value of an IEEE-754 double given by its 16 hex digits *)
-let q_of_f64hex (h : string) : q =
+let q_of_f64hex ?(shift = 0) (h : string) : q =   (* shift: divide by 2^shift *)
   let hi = int_of_string ("0x" ^ String.sub h 0 4) and lo = int_of_string ("0x" ^ String.sub h 4 12) in
   let sign = hi lsr 15 and ex = (hi lsr 4) land 0x7ff in
   let mant = ((hi land 0xf) lsl 48) lor lo in
   if ex = 0x7ff then failwith "non-finite coordinate in overlay dump";
   let m, e = if ex = 0 then mant, -1074 else mant lor (1 lsl 52), ex - 1075 in
+  let e = e - shift in
   let m = if sign = 1 then -m else m in
   if m = 0 then inject_Z Z0
   else if e >= 0 then inject_Z (Z.mul (z_of_int m) (Zpos (pow2 e)))
@@ -26,7 +27,8 @@ type overlay = {
   matrix : string;                 (* the matrix Go extracted from this very overlay *)
 }
 
-let parse_overlay (s : string) : overlay =
+let parse_overlay ?(shift = 0) (s : string) : overlay =
+  let q_of_f64hex h = q_of_f64hex ~shift h in
   let toks = Array.of_list (tokens s) in
   let pos = ref 0 in
   let next () = let t = toks.(!pos) in incr pos; t in
